@@ -182,3 +182,9 @@ PROPS["C11"] = {
         "'pest semantics' is the hand-written interpreter Model/Readme.v (pest is not available offline)",
     ],
 }
+
+# composite properties: further parts whose theorems and streams belong to the property
+PROPS["C05"]["also"] = ["C05F"]      # lexical parser half + fold half
+PROPS["C12"]["also"] = ["C05F"]      # C12_fold_wf lives in Props/C05F.v
+PROPS["C14"]["also"] = ["C05F"]      # C14_fold_category lives in Props/C05F.v
+PROPS["C10"]["also"] = ["C03"]       # C10_fold_* (desugaring at the fold level) live in Props/C03.v
